@@ -435,6 +435,14 @@ func (tx *txState) op(kind string) error {
 // guard forwards a call on a handle whose transaction may have ended: whatever
 // the real store does then (error, garbage, nil dereference, fault on unmapped
 // memory) is what production would do; a panic is recorded as a crash.
+//
+// bbolt only survives a read (Get, cursor scan) through a bucket of a closed transaction
+// when the bucket is still inline in its parent's page (less than a quarter page of data,
+// which the small histories of a simulated run rarely exceed); a bucket with pages of its
+// own dereferences the closed transaction (tx.db == nil) and the process dies. Like the
+// poisoning of lent slices, the proxy makes the worst case the contract allows happen every
+// time: such a read is a crash whether or not this bucket happened to be inline.
+// Put / Delete / ForEach check for a closed transaction themselves and return an error.
 func (tx *txState) guard(what string, f func()) {
 	if !tx.ended {
 		f()
@@ -448,7 +456,14 @@ func (tx *txState) guard(what string, f func()) {
 		}
 	}()
 	f()
+	if tx.p.path != "" && StrictClosedTxReads && (what == "Bucket.Get" || what == "Bucket.PrefixScan" || what == "Bucket.RangeScan") {
+		sim.Count("probe:closed-tx-read-on-inline-bucket")
+		panic("invalid memory address or nil pointer dereference (simulated: bbolt reads a bucket that has pages of its own through the closed transaction; this bucket was still inline)")
+	}
 }
+
+// StrictClosedTxReads can be switched off for an experiment (SIM_LENIENT_CLOSED_TX=1).
+var StrictClosedTxReads = os.Getenv("SIM_LENIENT_CLOSED_TX") == ""
 
 type proxyBM struct {
 	inner diskstore.BucketManager
